@@ -1459,6 +1459,11 @@ mod stepper {
         if n < FROM.load(Ordering::Relaxed) || n > TO.load(Ordering::Relaxed) {
             return;
         }
+        // two dozen deliveries that never returned are evidence enough: every further one would only
+        // cost another watchdog period
+        if HUNG.load(Ordering::Relaxed) + DIED.load(Ordering::Relaxed) >= 24 {
+            return;
+        }
         FORKS.fetch_add(1, Ordering::Relaxed);
         let pid = unsafe { libc::fork() };
         if pid == 0 {
@@ -1466,7 +1471,7 @@ mod stepper {
             IS_CHILD.store(true, Ordering::SeqCst);
             CHILD_STEP.store(n, Ordering::SeqCst);
             unsafe {
-                libc::alarm(2);
+                libc::alarm(1);
                 (*uc).uc_mcontext.gregs[libc::REG_EFL as usize] &= !0x100;
             }
             let _ = crate::sched::HANDLER_DEPTH.try_with(|d| d.set(d.get() + 1));
@@ -1489,7 +1494,7 @@ mod stepper {
             let ts = libc::timespec { tv_sec: 0, tv_nsec: 200_000 };
             unsafe { libc::nanosleep(&ts, std::ptr::null_mut()) };
             waited += 1;
-            if waited > 15_000 {
+            if waited > 8_000 {
                 unsafe {
                     libc::kill(pid, libc::SIGKILL);
                     libc::waitpid(pid, &mut st, 0);
@@ -1564,7 +1569,7 @@ fn probe_step(args: &Args) {
         let mut total = 0usize;
         for pass in 0..2 {
             let stride = if pass == 0 { 0 } else if all { 1 } else { std::cmp::max(1, total / forks_per_op) };
-            let st = fork_run(args.num("timeout-ms", 120_000) as u64, || {
+            let st = fork_run(args.num("timeout-ms", 300_000) as u64, || {
                 let mut res = [0 as c_int; 2];
                 unsafe { libc::pipe(res.as_mut_ptr()) };
                 RES_FD.store(res[1], Ordering::SeqCst);
